@@ -75,12 +75,22 @@ def c01_2(ctx: Ctx):
     lp = loops[0]
     b = src(lp.target)
     lin = linear(fi.node)
-    shifts = [n for n in ast.walk(lp) if isinstance(n, ast.AugAssign) and src(n.target) == f"{b}.offset"]
+    shifts = [n for n in ast.walk(lp) if isinstance(n, (ast.AugAssign, ast.Assign)) and src(n.target if isinstance(n, ast.AugAssign) else n.targets[0]) == f"{b}.offset"]
     if len(shifts) != 1:
         raise AnalysisError("edit_byte_interval: block shift statement not found")
     sh = shifts[0]
-    ctx.check(isinstance(sh.op, ast.Add) and src(sh.value) == "size_delta", fi, sh, "shift is += size_delta",
-              f"blocks shift by `{src(sh.value)}`")
+    # the new offset of a moved block as an expression of (old offset, edit offset, size delta)
+    newoff = ast.BinOp(ast.parse(f"{b}.offset", mode="eval").body, sh.op, sh.value) if isinstance(sh, ast.AugAssign) else sh.value
+    wrong = []
+    for bo, off, delta in ((3, 3, 2), (5, 3, 2), (7, 3, -2), (9, 3, -4), (5, 3, 0)):  # blocks behind the edited range: plain shift
+        try:
+            got = minieval(newoff, {f"{b}.offset": bo, "offset": off, "size_delta": delta})
+        except Unknown as exc:
+            raise AnalysisError(f"block shift expression not interpretable: {exc}")
+        if got != bo + delta:
+            wrong.append((bo, off, delta, got))
+    ctx.check(not wrong, fi, sh, "a block behind the edited range moves by exactly size_delta",
+              f"blocks move to `{src(newoff)}`; (block offset, edit offset, delta, new offset) = {wrong[:3]}")
     # the guard of the shift relative to the loop body, as an expression to tabulate
     conds: List[ast.expr] = []
     for n in ast.walk(lp):
